@@ -34,11 +34,49 @@ SQLX_OVERLAY = {
 # F6 (Wait skipped a batch handed over by a concurrent Add) is fixed in go-zero; its schedules stay in the
 # corpus as regression cases and nothing is suppressed any more.
 
-CONSTS = {"idleRound": ("core/executors/periodicalexecutor.go", r"^\s*const\s+idleRound\s*=\s*([0-9_]+)\s*$"),
-          "maxBulkRows": ("core/stores/sqlx/bulkinserter.go", r"^\s*maxBulkRows\s*=\s*([0-9_]+)\s*$")}
-
+# constants of the source the model / the generator rely on: (package directory, name).  They are looked up in every
+# non-test file of the package, as `const NAME = n`, inside a const ( ... ) block, with or without a type, with a
+# trailing comment (harmless rewrites: moving a constant to another file of the package, grouping, typing it).
+CONSTS = {"idleRound": "core/executors", "maxBulkRows": "core/stores/sqlx"}
 
 DUR = {"time.Nanosecond": 1, "time.Microsecond": 10**3, "time.Millisecond": 10**6, "time.Second": 10**9, "time.Minute": 60 * 10**9}
+
+
+def _pkg_sources(rel):
+    d = os.path.join(vlib.REPO, rel)
+    out = []
+    for fn in sorted(os.listdir(d)):
+        if fn.endswith(".go") and not fn.endswith("_test.go"):
+            try:
+                out.append(open(os.path.join(d, fn)).read())
+            except OSError:
+                pass
+    return out
+
+
+def _const_rhs(rel, name):
+    """right-hand sides of the declarations of constant `name` in package directory rel"""
+    pat = re.compile(r"^[ \t]*(?:const[ \t]+)?%s(?:[ \t]+[\w.]+)?[ \t]*=[ \t]*([^\n]*?)[ \t]*(?://[^\n]*)?$" % re.escape(name), re.M)
+    return [m.group(1) for src in _pkg_sources(rel) for m in pat.finditer(src)]
+
+
+def read_consts():
+    vals = {}
+    rhs = _const_rhs("core/stores/sqlx", "flushInterval")
+    val = None
+    for r in rhs:
+        m = re.fullmatch(r"(?:([0-9_]+)\s*\*\s*)?(time\.[A-Za-z]+)(?:\s*\*\s*([0-9_]+))?", r)
+        if m and m.group(2) in DUR:
+            val = int((m.group(1) or "1").replace("_", "")) * int((m.group(3) or "1").replace("_", "")) * DUR[m.group(2)]
+    if val is None:
+        raise RuntimeError("c11: flushInterval of core/stores/sqlx is no longer <n> * time.<Unit> (found %r)" % rhs)
+    vals["flushInterval"] = val
+    for name, rel in CONSTS.items():
+        got = [r for r in _const_rhs(rel, name) if re.fullmatch(r"[0-9_]+", r)]
+        if len(got) != 1:
+            raise RuntimeError("c11: constant %s of %s is no longer one integer literal (found %r)" % (name, rel, _const_rhs(rel, name)))
+        vals[name] = int(got[0].replace("_", ""))
+    return vals
 
 
 # kind "agg": a bare PeriodicalExecutor over a custom container (harness/overlay/executors/verif_c11_agg.go,
@@ -74,28 +112,12 @@ def accepts_zero_task(inst):
     return inst["kind"] == "agg" and not (inst["empty"] == "zero" and inst["shape"] in ZERO_SHAPES)
 
 
-def read_consts():
-    vals = {}
-    src = open(os.path.join(vlib.REPO, "core/stores/sqlx/bulkinserter.go")).read()
-    m = re.search(r"^\s*flushInterval\s*=\s*(?:([0-9_]+)\s*\*\s*)?(time\.[A-Za-z]+)\s*$", src, re.M)
-    if not m or m.group(2) not in DUR:
-        raise RuntimeError("c11: flushInterval of core/stores/sqlx/bulkinserter.go is no longer <n> * time.<Unit>")
-    vals["flushInterval"] = int((m.group(1) or "1").replace("_", "")) * DUR[m.group(2)]
-    for name, (rel, pat) in CONSTS.items():
-        src = open(os.path.join(vlib.REPO, rel)).read()
-        m = re.search(pat, src, re.M)
-        if not m:
-            raise RuntimeError("c11: constant %s of %s is no longer an integer literal" % (name, rel))
-        vals[name] = int(m.group(1).replace("_", ""))
-    return vals
-
-
 def single(kind, maxw, ncl, ops, **kw):
     """one instance; ops in the short single-instance form (no instance index, no variants)"""
     new = []
     for o in ops:
         k = o[0]
-        if k in ("add", "addn"):
+        if k in ("add", "addn", "adds", "sendgo"):
             new.append([k, 0] + list(o[1:]))
         elif k in ("flush", "wait"):
             new.append([k, 0, o[1], o[2] if len(o) > 2 else 0])
@@ -110,9 +132,11 @@ def single(kind, maxw, ncl, ops, **kw):
 
 
 def drain_ops(case):
-    nadds = sum(1 for o in case["ops"] if o[0] in ("add", "addn"))
+    nadds = sum(1 for o in case["ops"] if o[0] in ("add", "addn", "adds"))
     k = min(12, nadds + 3)
     unit = [["relall"]] + ([["qgo"]] if case.get("gateq") else []) + ([["sgo"]] if case.get("gates") else [])
+    # producers parked before the send on commander are let go whenever the channel is empty
+    unit += [["sendgo", i, c] for (i, c) in sorted(set((o[1], o[2]) for o in case["ops"] if o[0] == "adds"))]
     waits = [["wait", i, 0, 1] for i in range(len(case["insts"]))]
     return unit * k + waits + unit * k
 
@@ -154,12 +178,13 @@ def analyse_inst(inst, steps, drained):
     n = inst["nclients"]
     prev = {"idle": [True] * n, "parked": [], "cont": []}
     started, returned, pending, completed, waits = [], [], [], [], []
+    flushes = []
     fails = []
     nwaits = 0
     for i, (a, o) in enumerate(steps):
         idle_prev = prev["idle"]
         k = a[0]
-        if k == "add" and a[1] < n and idle_prev[a[1]]:
+        if k in ("add", "adds") and a[1] < n and idle_prev[a[1]]:
             started.append(a[2])
             pending.append((a[1], a[2]))
         if k == "addn" and a[1] < n and idle_prev[a[1]]:
@@ -169,6 +194,8 @@ def analyse_inst(inst, steps, drained):
         if k == "wait" and a[1] < n and idle_prev[a[1]]:
             waits.append((a[1], list(returned), i))
             nwaits += 1
+        if k == "flush" and a[1] < n and idle_prev[a[1]]:
+            flushes.append((a[1], list(returned), i))
         if k == "rel":
             rel = []
             if a[1] >= 0:
@@ -189,6 +216,11 @@ def analyse_inst(inst, steps, drained):
             if missing:
                 fails.append({"kind": "wait", "client": c, "start": i0, "ret": i, "missing": missing[:20]})
         waits = [w for w in waits if not o["idle"][w[0]]]
+        for (c, pre, i0) in [f for f in flushes if o["idle"][f[0]]]:
+            left = [t for t in pre if t in set(o["cont"])]
+            if left:
+                fails.append({"kind": "flush", "client": c, "start": i0, "ret": i, "still_in_container": left[:20]})
+        flushes = [f for f in flushes if not o["idle"][f[0]]]
         visible = completed + [t for h in o["parked"] for t in h] + o["cont"]
         if len(set(visible)) != len(visible):
             fails.append({"kind": "duplicate", "step": i})
@@ -261,13 +293,21 @@ class C11(Property):
                   "in Pinned.v); a returned Flush leaves no earlier task in the container; runs with and without panics have the "
                   "same core state and differ only in executed/lost; a batch handed out by RemoveAll is never written again "
                   "(buffer model; the buffer-swapping variant and the two 'guarded cleared later' variants are refuted in Pinned.v). "
+                  "The container enters as runs cfg h = hasTasks(the value RemoveAll renders h as) with reflect kinds as an inductive: "
+                  "the theorems hold for exactly the containers that keep hasTasks' contract (faithful_iff_honest, "
+                  "contract_is_necessary), whatever the kind of their batches and although batches may be zero values - because "
+                  "unknown kinds are always executed (the !IsZero variant of seeded change C11-9 is refuted in Pinned.v). "
                   "The model is tied to core/executors and core/stores/sqlx.BulkInserter by forced schedules on several "
                   "instances at once: the observed log of every instance must be a trace of the LTS.")
     level_note = ("Trusted: Coq kernel + vm_compute; hand-written LTS (each mutex section / channel operation / callback is one "
                   "atomic action); correspondence on generated forced schedules only; "
                   "quiescence detection via runtime.Stack; core/timex/relativetime.go is replaced by a virtual clock.")
-    rule = ("forced schedules on 1..3 executor instances at once (kinds bulk/chunk/periodical/bag, threshold 1..4 (bulk) or 1..8 with "
-            "weights 0..4, 2..4 clients each; a few cases per run on sqlx.BulkInserter with threshold maxBulkRows), "
+    rule = ("forced schedules on 1..3 executor instances at once (kinds bulk/chunk/periodical/bag/agg, threshold 1..4 (bulk) or 1..8 with "
+            "weights 0..4, 2..4 clients each; agg = a bare PeriodicalExecutor over a custom container whose batches are "
+            "slice/map/chan/array/struct/int/string/bool/pointer values or a struct behind a named interface, 'nothing added' rendered "
+            "as nil / the zero value / a non-zero idle value, with task 0 = the batch that is the ZERO VALUE of its type although a task "
+            "was added; 60 fixed corpus cases put that batch on every path: Wait, Flush, threshold hand-over, periodic flush; "
+            "a few cases per run on sqlx.BulkInserter with threshold maxBulkRows), "
             "6..28 controller actions (12% of the single-instance cases: 40..70 on one long-lived instance): "
             "add/flush/wait through the wrapper or the inner executor/sync/release/tick/clock/proc.Shutdown, idle-quit patterns, "
             "in 35% of the cases the flusher is parked before shallQuit, in 40% the quitting flusher is parked inside "
@@ -439,6 +479,31 @@ class C11(Property):
                    "ops": [["addn", 0, 0, 1, 20], ["add", 1, 0, 5001, 1], ["shutdown"], ["add", 0, 1, 21, 1], ["add", 1, 1, 5002, 1],
                            ["rel", 0, 0], ["add", 1, 0, 5003, 1], ["rel", 1, 0], ["relall"], ["clock", 10001], ["tick", 1], ["tick", 1],
                            ["tick", 0], ["add", 1, 0, 5004, 1], ["clock", idle], ["tick", 0], ["tick", 0], ["add", 0, 0, 22, 1]]})
+        # chunk tasks of declared size 0 only (seeded change C11-5: RemoveAll answers nil while size == 0): Flush, tick, Wait
+        cs.append(single("chunk", 4, 2, [["add", 0, 1, 0], ["add", 1, 2, 0], ["flush", 0], ["rel", 0], ["add", 0, 3, 0], ["tick"], ["rel", 0],
+                                         ["add", 0, 4, 0], ["wait", 1], ["rel", 0], ["add", 1, 5, 0], ["wait", 0, 1], ["rel", 0]]))
+        # a Flush / Wait that starts while an earlier flush is inside its callback must run what was added in between
+        # (seeded change C11-6: concurrent flushes share one flight); two overlapping Waits: the second one waits for the
+        # callback of the first one's Flush (seeded change C11-8: Wait flushes outside the waitGroup)
+        for kind in ("bulk", "chunk"):
+            cs.append(single(kind, 3, 3, [["add", 0, 1, 1], ["flush", 1], ["add", 0, 2, 1], ["wait", 2], ["rel", 0], ["rel", 0]]))
+            cs.append(single(kind, 3, 3, [["add", 0, 1, 1], ["flush", 1, 1], ["add", 0, 2, 1], ["flush", 2], ["rel", 0], ["rel", 0],
+                                          ["tick"], ["add", 0, 3, 1], ["tick"], ["add", 1, 4, 1], ["flush", 2, 1], ["rel", 0], ["rel", 0]]))
+            cs.append(single(kind, 3, 3, [["add", 0, 1, 1], ["wait", 1], ["wait", 2], ["rel", 0]]))
+            cs.append(single(kind, 3, 3, [["add", 0, 1, 1], ["wait", 1, 1], ["add", 0, 2, 1], ["wait", 2, 1], ["wait", 0], ["rel", 0], ["rel", 0]]))
+        # a producer descheduled between addAndCheck (threshold batch removed, inflight++) and the send on commander
+        # ("adds": parked there until "sendgo"), overtaken by a later batch of another producer while a Wait is waiting
+        # (seeded change C11-7: Wait counts take-overs instead of waiting for inflight = 0)
+        for kind in ("bulk", "chunk", "periodical"):
+            cs.append(single(kind, 2, 4, [["adds", 0, 1, 1], ["adds", 0, 2, 1], ["wait", 3], ["add", 1, 3, 1], ["add", 1, 4, 1],
+                                          ["rel", 0], ["sendgo", 0], ["rel", 0]]))
+        cs.append(agg("struct", "mark", 2, 4, [["adds", 0, 0, 1], ["adds", 0, 2, 1], ["wait", 3], ["add", 1, 3, 1], ["add", 1, 4, 1],
+                                               ["rel", 0], ["sendgo", 0], ["rel", 0]]))
+        # ... two parked producers released in the other order; a Flush and the idle flusher (it must not quit:
+        # inflight > 0) in that window
+        cs.append(single("bulk", 2, 4, [["adds", 0, 1, 1], ["adds", 0, 2, 1], ["adds", 1, 3, 1], ["adds", 1, 4, 1], ["flush", 2], ["wait", 3],
+                                        ["clock", 10001], ["tick"], ["tick"], ["sendgo", 1], ["rel", 0], ["add", 2, 5, 1], ["sendgo", 0],
+                                        ["rel", 0], ["wait", 2]], gateq=True))
         for c in cs:
             c["drain"] = True
         return cs
@@ -522,6 +587,20 @@ class C11(Property):
             i = rng.choice(zs)
             w = 1 if insts[i].get("shape") in ONE_TASK_SHAPES else rng.choice([0, 0, 1, insts[i]["maxw"]])
             ops.insert(rng.randrange(min(len(ops), 12) + 1), ["add", i, rng.randrange(insts[i]["nclients"]), 0, max(0, w)])
+        # one producer whose Adds are parked between addAndCheck and the send on commander (released by "sendgo")
+        if rng.random() < 0.15:
+            i = rng.randrange(n_inst)
+            if insts[i]["kind"] != "sqlx":
+                c = rng.randrange(insts[i]["nclients"])
+                new = []
+                for o in ops:
+                    if o[0] == "add" and o[1] == i and o[2] == c:
+                        o = ["adds"] + o[1:]
+                    new.append(o)
+                    if new[-1][0] == "adds" or (rng.random() < 0.1 and any(x[0] == "adds" for x in new)):
+                        if rng.random() < 0.6:
+                            new.append(["sendgo", i, c])
+                ops = new
         return ops, nid
 
     def _gen_sqlx(self, rng):
@@ -686,6 +765,10 @@ class C11(Property):
         k = a[0]
         if k == "add":
             return "AAdd %d %s %s" % (a[1], cz(a[2]), cz(a[3]))
+        if k == "adds":
+            return "AAddS %d %s %s" % (a[1], cz(a[2]), cz(a[3]))
+        if k == "sendgo":
+            return "ASendGo %d" % a[1]
         if k == "addn":
             return "AAddN %d %s %d%%nat" % (a[1], cz(a[2]), a[3])
         if k == "flush":
@@ -709,11 +792,12 @@ class C11(Property):
         return "AClock %s" % cz(a[1])
 
     def _obs(self, o):
-        return "mkObs %s %s %s %s %s %s %s %s %s %s %s %s" % (
+        return "mkObs %s %s %s %s %s %s %s %s %s %s %s %s %s" % (
             clist([cbool(b) for b in o["idle"]]),
             clist([zl(h) for h in o["parked"]]),
             zl(o["cont"]), cz(o["size"]), cz(o["inflight"]), cbool(o["guarded"]), cbool(o["cmd"]),
-            cbool(o["tick"]), cbool(o["benter"]), cbool(o["bexit"]), cbool(o["qpark"]), cbool(o["spark"]))
+            cbool(o["tick"]), cbool(o["benter"]), cbool(o["bexit"]), cbool(o["qpark"]), cbool(o["spark"]),
+            clist([cbool(b) for b in (o.get("split") or [False] * len(o["idle"]))]))
 
     def coq_case(self, case, obs):
         err = bool(case_err(obs))
@@ -727,10 +811,11 @@ class C11(Property):
             rem = rem[idx] if idx < len(rem) and rem[idx] else []
             rm = clist(["(%s, mkBV %s %s %s)" % (zl(r.get("ids") or []), RKINDS.get(r["kind"], "KOther"), cz(r["len"]),
                                                  cbool(r["zero"])) for r in rem])
-            parts.append("mkCase %s %s %s %s %s %s %s %d%%nat %s %s %s %s" % (
+            spl = sorted(set(o[2] for o in case["ops"] if o[0] == "adds" and o[1] == idx))
+            parts.append("mkCase %s %s %s %s %s %s %s %d%%nat %s %s %s %s %s" % (
                 cz(inst["maxw"]), cz(inst["interval"]), clist([cz(b) for b in case["bad"]]),
                 cbool(bool(case.get("drain", True))), cbool(err), cbool(bool(case.get("gateq"))),
-                cbool(bool(case.get("gates"))), inst["nclients"], ck, ce, rm, st))
+                cbool(bool(case.get("gates"))), inst["nclients"], clist(["%d%%nat" % c for c in spl]), ck, ce, rm, st))
         return clist(parts)
 
     # ---- classification ----------------------------------------------------------
@@ -745,6 +830,16 @@ class C11(Property):
     def features(self, case, obs):
         fs = ["instances=%d" % len(case["insts"])]
         fs += sorted(set("kind=" + i["kind"] for i in case["insts"]))
+        for idx, inst in enumerate(case["insts"]):
+            if inst["kind"] != "agg":
+                continue
+            fs.append("container=%s/%s" % (inst["shape"], inst["empty"]))
+            rem = obs.get("removed") or []
+            for r in (rem[idx] if idx < len(rem) and rem[idx] else []):
+                if r.get("ids") and r.get("zero"):
+                    fs.append("zero_valued_batch_with_tasks_" + r["kind"])
+                if not r.get("ids") and r.get("kind") not in ("nil", "slice", "map", "chan", "array"):
+                    fs.append("idle_aggregate_executed")
         fs += ["has_" + k for k in sorted(set(o[0] for o in case["ops"]))]
         if case["bad"]:
             fs.append("panicking_tasks")
